@@ -1,3 +1,4 @@
 import Cgm.Lemmas.AuditCmd
 import Cgm.Props.C17
+import Cgm.Props.C17b
 #audit_namespace Cg.C17
